@@ -744,15 +744,15 @@ def check_c18(rep):
                           {"pset": pset, "behaviour": beh, "event": {k: v for k, v in ke.items() if k != "comps"}})
         rep.cov["states"] += kst["distinct"]
         rep.cov["transitions"] += kst["generated"]
-    rep.cov["collective_public_keys_checked_as_rlwe_samples"] = len(kevents)
+    rep.cov["collective_keys_checked_as_rlwe_samples"] = {w: sum(1 for k in kevents if k[2]["what"] == w) for w in sorted({k[2]["what"] for k in kevents})}
     rep.cov["traces_validated_against_impl"] = total
     rep.cov["evaluations"] = total
     rep.cov["distinct_nontrivial"] = sum(len(v) for v in orders.values()) * len(plan[0][1])
     rep.cov["rule"] = ("behaviours = delivery orders of the n(n-1) messages of one broadcast round interleaved with finish attempts (at most one premature), enumerated by TLC over "
                        "Multiparty.tla for n = 2, 3 and simulated for n >= 4; each order is replayed with real Participants for each protocol (public key, secret-key revelation, "
                        "two-round relinearization keys, collective decryption, key switch, public-key switch, cipher->shares, shares->cipher): premature finish must be refused, all "
-                       "parties' outputs byte-identical, collective keys work under the sum of the secret keys and the collective public key is an RLWE sample c0 + c1*(s_1+..+s_n) = e with |e| <= 21 n "
-                       "(Keys.tla), plaintext preserved")
+                       "parties' outputs byte-identical, collective keys work under the sum of the secret keys and the collective public key is an RLWE sample c0 + c1*(s_1+..+s_n) = e with |e| <= 21 n, every component of the collective "
+                       "relinearization key one with payload P*(s_1+..+s_n)^2 and |e| <= 84 N n^2 (Keys.tla), plaintext preserved")
     rep.assumptions += ["the abstract round (sum of shares in Z_97) is the design; the binding checks the concrete ring identities through ordinary encryption/decryption under the summed key",
                         "CKKS plaintexts are compared within 1e-3"]
 
